@@ -8,7 +8,8 @@ From Coq Require Import String.
 From Coq Require Import List NArith Bool.
 From Wbxml Require Import Model.Codec Model.TablesDefs Gen.TablesData Model.Parser Model.TreeBuild Model.TreeConv Model.Conv Model.ConvConcrete
      Proofs.TreeBuildProofs Proofs.TreeBuildProofs3 Proofs.TreeRoundTrip Proofs.ConvRoundTrip Proofs.ConvSecondIter Proofs.ConvFirstToSecond Proofs.ConvSecondIndent Proofs.ConvSecondNs
-     Proofs.TreeRoundTripWide Proofs.ConvRoundTripWide.
+     Proofs.TreeRoundTripWide Proofs.ConvRoundTripWide Proofs.ConvWideUnforced Proofs.ConvSecondIterWide Proofs.ConvFirstToSecondWide Proofs.ConvSecondIndentWide.
+From Wbxml Require Model.XmlFrontEvents Proofs.XmlFrontInverse Model.EncWbxmlEvents.
 From Wbxml Require Proofs.EncWbxmlAbs Proofs.EncWbxmlDenote2 Proofs.EncWbxmlTblOk Proofs.EncWbxmlDenote3.
 From Wbxml Require Model.EncWbxml Model.EncWbxmlTables Model.TreeNorm Proofs.EncWbxmlProofs Proofs.EncWbxmlSerialize Proofs.EncWbxmlDenote.
 From Wbxml Require Model.EncXml Model.XmlRead Proofs.EncXmlProofs Proofs.EncXmlIndent.
@@ -339,8 +340,9 @@ Print Assumptions C03_second_iteration_namespaces_partial.
 (* The first iteration on the WIDE fragment of the WBXML encoder (C06's string-table axis: C03b_roundtrip_wide_partial).
    PARTIAL in: the hypotheses of the encoder's wide theorem (tree_ok3: tags and attribute starts are the language's rows or names
    unknown to it, octets 1..255, depth <= 1000, no CDATA / PI; plain_env: not SyncML / Wireless-Village / DRM / OTA; no extension
-   table), output below 4 GiB, no element named "Data", and THE LANGUAGE OF THE SECOND CONVERSION IS FORCED (wbxml2xml -l;
-   Proofs/ConvRoundTripWide.v names the lemma missing for the unforced reading).  Attributes (token starts with or without value
+   table), output below 4 GiB, no element named "Data".  The language of the second conversion is forced, or found by the numeric
+   or the textual public identifier the encoder wrote (lang_choiceW; Proofs/ConvWideUnforced.v replays the encoder's theorem with
+   the abstract document in view: C03_encoder_public_id_field).  Attributes (token starts with or without value
    prefix, literal names), literal tags, string table on or off, textual or numeric public id: the second conversion succeeds, its
    output is the generator's text for root' = the normalised source tree with tags by tag_event and attributes by attr_event
    (name and FULL value; dropped when the language has no attribute table, as the encoder drops them), and reading it back gives
@@ -358,7 +360,7 @@ Theorem C03_conversion_roundtrip_wide_partial :
   EncWbxmlAbs.plain_env e = true -> EncWbxmlDenote2.vals_ok L = true -> l_exts L = None ->
   EncWbxmlTblOk.tree_ok3 L 0 (EncWbxml.NElt tag attrs ch) = true ->
   find (fun x => l_id x =? l_id L) TBL = Some L ->
-  wo_lang o' = l_id L -> l_id L <> 0 -> wo_charset o' = 0 ->
+  lang_choiceW TBL L e (wo_lang o') -> wo_charset o' = 0 ->
   EncWbxml.o_version o < 4 -> EncWbxml.header_public_id e < 4294967296 -> EncWbxml.header_public_id e <> 0 ->
   (match EncWbxmlAbs.header_pid e with Some p => EncWbxmlDenote2.okb p = true | None => True end) ->
   no_data (EncWbxmlDenote3.doc_events3 L e (EncWbxml.o_keep_ws o) (EncWbxml.NElt tag attrs ch)) = true ->
@@ -383,8 +385,212 @@ Theorem C03_conversion_roundtrip_wide_partial :
          XmlRead.ROk (EncXmlProofs.doc_of xl
                         [XmlRead.XE (EncXml.tname_bytes (to_tname L tg))
                                     (EncXmlProofs.spec_attrs xl xo EncXml.proot (to_tname L tg) (map to_attr at')) c])).
-Proof. exact conversion_roundtrip_wide. Qed.
+Proof. exact conversion_roundtrip_wide_choice. Qed.
 Print Assumptions C03_conversion_roundtrip_wide_partial.
+
+(* the public-identifier field of the document the encoder writes on the wide fragment (the existential document of
+   C06's wide theorem, kept in view): whenever the id is written as a number, wd_pub d is that number; whenever it is written as
+   a string p (language without numeric id, not anonymous), wd_pub d is an index of the written string table at which p stands
+   (in the table proper with the string table on; as the table's only string without) — what an unforced parse selects the
+   language by (lang_choiceW: forced / numeric id / textual id compared without regard to case) *)
+Theorem C03_encoder_public_id_field : forall tblb TBL L o tag attrs ch bs,
+  let e := EncWbxml.enc_env (EncWbxmlDenote2.to_blang L) o in
+  EncWbxmlAbs.plain_env e = true -> EncWbxmlDenote2.vals_ok L = true -> l_exts L = None ->
+  EncWbxmlTblOk.tree_ok3 L 0 (EncWbxml.NElt tag attrs ch) = true ->
+  EncWbxml.o_version o < 4 -> EncWbxml.header_public_id e < 4294967296 -> EncWbxml.header_public_id e <> 0 ->
+  (match EncWbxmlAbs.header_pid e with Some p => EncWbxmlDenote2.okb p = true | None => True end) ->
+  EncWbxml.len bs < 4294967296 ->
+  EncWbxml.enc_wbxml tblb (EncWbxmlDenote2.to_blang L) o [EncWbxml.NElt tag attrs ch] = EncWbxml.EOk bs ->
+  exists d evs, bs = Spec.serialize d /\ Spec.denote_with TBL (Some L) d = Some evs /\
+            EncWbxmlEvents.merge_chars evs
+            = EncWbxmlEvents.merge_chars (EncWbxmlDenote3.doc_events3 L e (EncWbxml.o_keep_ws o) (EncWbxml.NElt tag attrs ch)) /\
+            (EncWbxmlAbs.header_pid e = None -> Spec.wd_pub d = Spec.PubNum (EncWbxml.header_public_id e)) /\
+            (forall p, EncWbxmlAbs.header_pid e = Some p ->
+               exists i, Spec.wd_pub d = Spec.PubIdx i /\ Spec.str_at (Spec.wd_strtbl d) i = Some p /\
+                         blen (Spec.wd_strtbl d) < 4294967296).
+Proof. exact strict_decode_of_encoding3_pub. Qed.
+Print Assumptions C03_encoder_public_id_field.
+
+(* THE SECOND ITERATION ON THE WIDE FRAGMENT: attributes, literal tags, namespaces per code page together.
+   x = the XML of the first round trip = the generator's text (compact or canonical) for root' = tnodeW R2.  PARTIAL in:
+   * the Expat assumption (events_of_info_ns: namespace mode, one character-data event per text item) — its result is shown to be
+     XmlFrontEvents.doc_events of R2, the event list whose parser assumptions the xmlfront agent ties against the C;
+   * tgoodW (no binary-flagged rows, texts the generator's white-space policy leaves alone, no adjacent texts), wok (names,
+     namespaces and attributes come back as written: elt_ok — with a namespace table every tag is a row under its own code page and
+     the page has a namespace, so no literal tags there; attribute values NUL-free and free of TAB/LF/CR unless canonical; no
+     attribute called xmlns), root_canon (the front end's canonical form, C02f_front_inverts_doc), enormalW (already normalised);
+   * the hypotheses of the encoder's wide theorem for R2, and: THE SECOND ENCODING SUCCEEDS with some w2 below 4 GiB (the encoder's
+     wide theorem does not give success; on the narrow fragment success is proved);
+   * compact / canonical generation, not SyncML.
+   Conclusion: the front end rebuilds R2 from those events, the first conversion gives w2, the second conversion of w2 gives x. *)
+Theorem C03_second_iteration_identical_wide_partial :
+  forall (main TBL : list lang) (btbl : list EncWbxml.blang) (sub : EncWbxml.bytes -> XmlFront.xtree + N)
+         (L : lang) o o' tag attrs ch2 x w2,
+  let e := EncWbxml.enc_env (EncWbxmlDenote2.to_blang L) o in
+  let wa := EncWbxml.has_attr_table e in
+  let R2 := EncWbxml.NElt tag attrs ch2 in
+  let root' := tnodeW wa R2 in
+  let xl := EncXml.xlang_of L in
+  let xo := EncXml.opts_of_params (gen_of (wo_gen o')) (wo_indent o') (wo_keep_ws o') in
+  let nmx := to_tname L (EncWbxmlTblOk.tag_event tag) in
+  let ax := map to_attr (if wa then map EncWbxmlDenote2.attr_event attrs else []) in
+  EncXml.enc_xml_opts xl xo [to_xnode TBL L root'] = EncXml.XOk x ->
+  EncXmlProofs.lang_ok xl = true -> EncXmlIndent.node_ok_g xl xo EncXml.proot None (to_xnode TBL L root') = true ->
+  EncXml.is_indent xo = false -> EncXml.is_syncml xl = false ->
+  tgoodW L xo root' -> wok L xo wa R2 -> XmlFrontEvents.root_canon L XmlFrontInverse.no_emb R2 = true ->
+  LangSelect.search_table main (option_map XmlFront.str (EncXml.xl_pub xl)) (Some (XmlFront.str (EncXml.xl_dtd xl))) None = Some L ->
+  enormalW (EncWbxml.o_keep_ws o) R2 ->
+  EncWbxml.find_lang btbl (l_id L) = Some (EncWbxmlDenote2.to_blang L) ->
+  EncWbxmlAbs.plain_env e = true -> EncWbxmlDenote2.vals_ok L = true -> l_exts L = None ->
+  EncWbxmlTblOk.tree_ok3 L 0 R2 = true ->
+  find (fun y => l_id y =? l_id L) TBL = Some L ->
+  lang_choiceW TBL L e (wo_lang o') -> wo_charset o' = 0 ->
+  EncWbxml.o_version o < 4 -> EncWbxml.header_public_id e < 4294967296 -> EncWbxml.header_public_id e <> 0 ->
+  (match EncWbxmlAbs.header_pid e with Some p => EncWbxmlDenote2.okb p = true | None => True end) ->
+  no_data (EncWbxmlDenote3.doc_events3 L e (EncWbxml.o_keep_ws o) R2) = true ->
+  EncWbxml.enc_wbxml btbl (EncWbxmlDenote2.to_blang L) o [R2] = EncWbxml.EOk w2 -> EncWbxml.len w2 < 4294967296 ->
+  exists c d,
+    d = EncXmlProofs.doc_of xl [XmlRead.XE (EncXml.tname_bytes nmx) (EncXmlProofs.spec_attrs xl xo EncXml.proot nmx ax) c] /\
+    (forall fuel, (EncXmlProofs.node_fuel (to_xnode TBL L root') + 2 <= fuel)%nat -> XmlRead.read_xml fuel x = XmlRead.ROk d) /\
+    events_of_info_ns d = XmlFrontInverse.doc_events L (EncXml.xl_root xl) (Some (EncXml.xl_dtd xl)) (EncXml.xl_pub xl) R2 /\
+    forall doc2, doc2 <> [] ->
+      XmlFront.tree_from_xml main sub doc2 (events_of_info_ns d) true = inl (XmlFront.mk_xtree (l_id L) 0 [R2]) /\
+      r_out (ConvXml2Wbxml.xml2wbxml_events main btbl sub (events_of_info_ns d) true o doc2) = Some w2 /\
+      wbxml2xml_model TBL o' w2 = mk_res ST_OK (Some (x ++ [0])) (N.of_nat (length x)).
+Proof. exact second_iteration_wide. Qed.
+Print Assumptions C03_second_iteration_identical_wide_partial.
+
+(* the normalised form of a canonical source tree is canonical for the front end (root_canon), normalised (enormalW), good for
+   the generator (tgoodW) and comes back as written (wok): every hypothesis of the theorem above about R2, from src_okW of the
+   SOURCE.  src_okW (decidable clause by clause): tag_canon / attrs_canon (the front end's own tables give the names back),
+   depth < 1000, not an embedded-document name below the root, no element named "Data", not binary-flagged, elt_ok, NUL-free
+   non-empty texts, no adjacent texts.  EXCLUDED, because the image of the front end is not canonical there
+   (C02f_image_not_canonical_empty_text / _cdata_in_binary / _data_hack): empty text nodes, CDATA nodes, binary-flagged elements,
+   elements named Data; also embedded trees and PIs. *)
+Theorem C03_normalised_source_is_canonical_wide : forall L xo wa keep tag attrs ch,
+  src_okW L xo wa 0 (EncWbxml.NElt tag attrs ch) ->
+  XmlFrontEvents.root_canon L XmlFrontInverse.no_emb (EncWbxml.NElt tag attrs (flat_map (TreeNorm.norm_node keep false) ch)) = true.
+Proof. exact norm_root_canon. Qed.
+Print Assumptions C03_normalised_source_is_canonical_wide.
+
+Theorem C03_normalised_source_is_normal_wide : forall L xo wa keep n d, src_okW L xo wa d n ->
+  Forall (enormalW keep) (TreeNorm.norm_node keep false n) /\ Forall (wok L xo wa) (TreeNorm.norm_node keep false n) /\
+  (keep_compatible keep xo -> Forall (fun m => tgoodW L xo (tnodeW wa m)) (TreeNorm.norm_node keep false n)).
+Proof.
+  intros L xo wa keep n d H. split; [exact (norm_enormalW L xo wa keep n d H)|]. split; [exact (norm_wok L xo wa keep n d H)|].
+  intros Hk. exact (norm_tgoodW L xo wa keep Hk n d H).
+Qed.
+Print Assumptions C03_normalised_source_is_normal_wide.
+
+(* the attribute clause of elt_ok from plainer conditions, and the name clause (no namespace table) from tree_ok3 *)
+Theorem C03_attributes_come_back_as_written : forall L xo wa attrs,
+  wa = EncXml.xl_has_attrs (EncXml.xlang_of L) -> (wa = false -> attrs = []) -> Forall (attr_good xo) attrs -> attrs_link L xo wa attrs.
+Proof. exact attrs_link_of. Qed.
+Print Assumptions C03_attributes_come_back_as_written.
+
+Theorem C03_names_come_back_as_written : forall L tag attrs ch d, EncWbxmlTblOk.tree_ok3 L d (EncWbxml.NElt tag attrs ch) = true ->
+  EncXml.tname_bytes (to_tname L (EncWbxmlTblOk.tag_event tag)) = EncWbxml.tag_xml_name tag.
+Proof. exact name_of_tree_ok3. Qed.
+Print Assumptions C03_names_come_back_as_written.
+
+(* ROUND TRIP AND IDEMPOTENCE ON THE WIDE FRAGMENT, from hypotheses about the SOURCE: C03_conversion_roundtrip_wide_partial composed
+   with C03_second_iteration_identical_wide_partial through the derivations above.  PARTIAL in: the wide fragment of the encoder
+   (tree_ok3, plain_env, no extension table, below 4 GiB, no element named Data), src_okW, the Expat assumption, compact / canonical
+   generation with a white-space policy not stricter than the encoder's (keep_compatible), not SyncML, the reader's hypotheses on
+   the strings (lang_ok, node_ok_g), and the success of the encoding of the normalised tree R2 (w2). *)
+Theorem C03_roundtrip_and_idempotence_wide_partial :
+  forall (main TBL : list lang) (btbl : list EncWbxml.blang) (sub : EncWbxml.bytes -> XmlFront.xtree + N)
+         evs expat_ok o doc w (L : lang) tag attrs ch o' w2,
+  let e := EncWbxml.enc_env (EncWbxmlDenote2.to_blang L) o in
+  let wa := EncWbxml.has_attr_table e in
+  let root := EncWbxml.NElt tag attrs ch in
+  let R2 := EncWbxml.NElt tag attrs (flat_map (TreeNorm.norm_node (EncWbxml.o_keep_ws o) false) ch) in
+  let root' := tnodeW wa R2 in
+  let xl := EncXml.xlang_of L in
+  let xo := EncXml.opts_of_params (gen_of (wo_gen o')) (wo_indent o') (wo_keep_ws o') in
+  let nmx := to_tname L (EncWbxmlTblOk.tag_event tag) in
+  let ax := map to_attr (if wa then map EncWbxmlDenote2.attr_event attrs else []) in
+  r_out (ConvXml2Wbxml.xml2wbxml_events main btbl sub evs expat_ok o doc) = Some w -> EncWbxml.len w < 4294967296 ->
+  (forall t0, XmlFront.tree_from_xml main sub doc evs expat_ok = inl t0 ->
+     EncWbxml.find_lang btbl (XmlFront.xt_lang t0) = Some (EncWbxmlDenote2.to_blang L) /\ XmlFront.xt_roots t0 = [root]) ->
+  EncWbxmlAbs.plain_env e = true -> EncWbxmlDenote2.vals_ok L = true -> l_exts L = None ->
+  EncWbxmlTblOk.tree_ok3 L 0 root = true ->
+  find (fun y => l_id y =? l_id L) TBL = Some L ->
+  lang_choiceW TBL L e (wo_lang o') -> wo_charset o' = 0 ->
+  EncWbxml.o_version o < 4 -> EncWbxml.header_public_id e < 4294967296 -> EncWbxml.header_public_id e <> 0 ->
+  (match EncWbxmlAbs.header_pid e with Some p => EncWbxmlDenote2.okb p = true | None => True end) ->
+  no_data (EncWbxmlDenote3.doc_events3 L e (EncWbxml.o_keep_ws o) root) = true ->
+  src_okW L xo wa 0 root -> EncWbxml.find_lang btbl (l_id L) = Some (EncWbxmlDenote2.to_blang L) ->
+  LangSelect.search_table main (option_map XmlFront.str (EncXml.xl_pub xl)) (Some (XmlFront.str (EncXml.xl_dtd xl))) None = Some L ->
+  EncXml.is_indent xo = false -> EncXml.is_syncml xl = false -> keep_compatible (EncWbxml.o_keep_ws o) xo ->
+  EncXmlProofs.lang_ok xl = true -> EncXmlIndent.node_ok_g xl xo EncXml.proot None (to_xnode TBL L root') = true ->
+  EncWbxml.enc_wbxml btbl (EncWbxmlDenote2.to_blang L) o [R2] = EncWbxml.EOk w2 -> EncWbxml.len w2 < 4294967296 ->
+  exists x c d,
+    wbxml2xml_model TBL o' w = mk_res ST_OK (Some (x ++ [0])) (N.of_nat (length x)) /\
+    EncXml.enc_xml_opts xl xo [to_xnode TBL L root'] = EncXml.XOk x /\
+    d = EncXmlProofs.doc_of xl [XmlRead.XE (EncXml.tname_bytes nmx) (EncXmlProofs.spec_attrs xl xo EncXml.proot nmx ax) c] /\
+    (forall fuel, (EncXmlProofs.node_fuel (to_xnode TBL L root') + 2 <= fuel)%nat -> XmlRead.read_xml fuel x = XmlRead.ROk d) /\
+    events_of_info_ns d = XmlFrontInverse.doc_events L (EncXml.xl_root xl) (Some (EncXml.xl_dtd xl)) (EncXml.xl_pub xl) R2 /\
+    forall doc2, doc2 <> [] ->
+      XmlFront.tree_from_xml main sub doc2 (events_of_info_ns d) true = inl (XmlFront.mk_xtree (l_id L) 0 [R2]) /\
+      r_out (ConvXml2Wbxml.xml2wbxml_events main btbl sub (events_of_info_ns d) true o doc2) = Some w2 /\
+      wbxml2xml_model TBL o' w2 = mk_res ST_OK (Some (x ++ [0])) (N.of_nat (length x)).
+Proof. exact roundtrip_and_idempotence_wide. Qed.
+Print Assumptions C03_roundtrip_and_idempotence_wide_partial.
+
+(* ... WITH INDENT GENERATION on the wide fragment, the encoder's keep_ws off (with keep_ws on it is not a fixed point: D38).
+   The front-end tree of the indented XML, Tind = etq (qual ..): the tree of the infoset with qualified names (qual: what a parser
+   in namespace mode reports), has the white space between markup as text nodes; it is canonical for the front end, lies in the wide
+   fragment, and its normal form is R2 — so, whenever its encoding succeeds (w2), the second conversion of w2 writes x again.
+   Same partiality as C03_roundtrip_and_idempotence_wide_partial; the success of the second encoding is a hypothesis on Tind. *)
+Theorem C03_roundtrip_and_idempotence_indent_wide_partial :
+  forall (main TBL : list lang) (btbl : list EncWbxml.blang) (sub : EncWbxml.bytes -> XmlFront.xtree + N)
+         evs expat_ok o doc w (L : lang) tag attrs ch o',
+  let e := EncWbxml.enc_env (EncWbxmlDenote2.to_blang L) o in
+  let wa := EncWbxml.has_attr_table e in
+  let root := EncWbxml.NElt tag attrs ch in
+  let R2 := EncWbxml.NElt tag attrs (flat_map (TreeNorm.norm_node false false) ch) in
+  let root' := tnodeW wa R2 in
+  let xl := EncXml.xlang_of L in
+  let xoc := EncXml.opts_of_params EncXml.Compact 0 (wo_keep_ws o') in
+  let nmx := to_tname L (EncWbxmlTblOk.tag_event tag) in
+  let ax := map to_attr (if wa then map EncWbxmlDenote2.attr_event attrs else []) in
+  let sa := EncXmlProofs.spec_attrs xl xoc EncXml.proot nmx ax in
+  r_out (ConvXml2Wbxml.xml2wbxml_events main btbl sub evs expat_ok o doc) = Some w -> EncWbxml.len w < 4294967296 ->
+  (forall t0, XmlFront.tree_from_xml main sub doc evs expat_ok = inl t0 ->
+     EncWbxml.find_lang btbl (XmlFront.xt_lang t0) = Some (EncWbxmlDenote2.to_blang L) /\ XmlFront.xt_roots t0 = [root]) ->
+  EncWbxmlAbs.plain_env e = true -> EncWbxmlDenote2.vals_ok L = true -> l_exts L = None ->
+  EncWbxmlTblOk.tree_ok3 L 0 root = true ->
+  find (fun y => l_id y =? l_id L) TBL = Some L ->
+  lang_choiceW TBL L e (wo_lang o') -> wo_charset o' = 0 ->
+  EncWbxml.o_version o < 4 -> EncWbxml.header_public_id e < 4294967296 -> EncWbxml.header_public_id e <> 0 ->
+  (match EncWbxmlAbs.header_pid e with Some p => EncWbxmlDenote2.okb p = true | None => True end) ->
+  no_data (EncWbxmlDenote3.doc_events3 L e (EncWbxml.o_keep_ws o) root) = true ->
+  src_okW L xoc wa 0 root -> EncWbxml.find_lang btbl (l_id L) = Some (EncWbxmlDenote2.to_blang L) ->
+  LangSelect.search_table main (option_map XmlFront.str (EncXml.xl_pub xl)) (Some (XmlFront.str (EncXml.xl_dtd xl))) None = Some L ->
+  gen_of (wo_gen o') = EncXml.Indent -> EncWbxml.o_keep_ws o = false ->
+  EncXml.is_syncml xl = false ->
+  EncXmlProofs.lang_ok xl = true -> EncXmlIndent.node_ok_g xl xoc EncXml.proot None (to_xnode TBL L root') = true ->
+  exists x ci d,
+    wbxml2xml_model TBL o' w = mk_res ST_OK (Some (x ++ [0])) (N.of_nat (length x)) /\
+    EncXml.enc_xml xl EncXml.Indent (wo_indent o') (wo_keep_ws o') [to_xnode TBL L root'] = EncXml.XOk x /\
+    d = EncXmlProofs.doc_of xl [XmlRead.XE (EncXml.tname_bytes nmx) sa ci] /\
+    (forall fuel, (EncXmlProofs.node_fuel (to_xnode TBL L root') + 2 <= fuel)%nat -> XmlRead.read_xml fuel x = XmlRead.ROk d) /\
+    let Tind := etq L (qual None (XmlRead.XE (EncXml.tname_bytes nmx) sa ci)) in
+    TreeNorm.norm false [Tind] = [R2] /\
+    events_of_info_ns d = XmlFrontInverse.doc_events L (EncXml.xl_root xl) (Some (EncXml.xl_dtd xl)) (EncXml.xl_pub xl) Tind /\
+    forall doc2, doc2 <> [] ->
+      XmlFront.tree_from_xml main sub doc2 (events_of_info_ns d) true = inl (XmlFront.mk_xtree (l_id L) 0 [Tind]) /\
+      forall w2, EncWbxml.enc_wbxml btbl (EncWbxmlDenote2.to_blang L) o [Tind] = EncWbxml.EOk w2 -> EncWbxml.len w2 < 4294967296 ->
+        r_out (ConvXml2Wbxml.xml2wbxml_events main btbl sub (events_of_info_ns d) true o doc2) = Some w2 /\
+        wbxml2xml_model TBL o' w2 = mk_res ST_OK (Some (x ++ [0])) (N.of_nat (length x)).
+Proof. exact roundtrip_and_idempotence_indent_wide. Qed.
+Print Assumptions C03_roundtrip_and_idempotence_indent_wide_partial.
+
+(* the qualified infoset commutes with C07's normal form modulo blank text, and the normal form of the tree does not see it *)
+Theorem C03_qualified_infoset_commutes_with_blank_normal_form : forall it cur, qual cur (EncXmlIndent.nb it) = EncXmlIndent.nb (qual cur it).
+Proof. exact qual_nb. Qed.
+Print Assumptions C03_qualified_infoset_commutes_with_blank_normal_form.
 
 (* ---- the hypotheses are satisfiable: a WML 1.3 deck through BOTH conversion functions, by computation ----
    <!DOCTYPE wml PUBLIC "-//WAPFORUM//DTD WML 1.3//EN" ...><wml><card><p> a </p><p>  </p></card></wml>
@@ -611,4 +817,135 @@ Example C03_ex_wide :
                  /\ evs <> EncWbxmlDenote3.doc_events3 exw_L exw_e false exw_root.
 Proof.
   repeat (split; [vm_compute; reflexivity|]). eexists; split; [vm_compute; reflexivity|vm_compute; discriminate].
+Qed.
+
+(* ---- round trip and idempotence on the wide fragment: the hypotheses about the SOURCE are satisfiable, and the conclusion by
+   computation through both conversion functions.
+   (a) the WML deck above (token attributes, literal element with literal attribute, string table on), language NOT forced;
+   (b) ActiveSync: namespaces per code page (AirSync: / ComposeMail:), a literal attribute, string table on, the public id written
+       as a string (language forced):  <Sync xmlns="AirSync:"><SmartReply xmlns="ComposeMail:" q="abcd"> hello world </SmartReply></Sync> *)
+Ltac solve_src :=
+  cbn [src_okW];
+  repeat match goal with
+  | |- _ /\ _ => split
+  | |- True => exact I
+  | |- _ \/ _ => first [left; reflexivity | right; vm_compute; reflexivity]
+  | |- elt_ok _ _ _ _ _ => unfold elt_ok, attrs_link
+  | |- match ?m with Some _ => _ | None => _ end => let v := eval vm_compute in m in change m with v; cbv beta iota
+  | |- exists _, _ => eexists
+  | |- _ <> _ => vm_compute; discriminate
+  | |- _ = _ => first [reflexivity | vm_compute; reflexivity]
+  end.
+
+Definition exw_xo := EncXml.opts_of_params (gen_of 0) 0 false.
+Definition exw_ou' := mk_w2x 0 0 0 0 false.
+Definition exw_R2 : EncWbxml.node :=
+  EncWbxml.NElt (EncWbxml.TagTok 0 63 0 (XmlFront.bs "wml")) []
+    [EncWbxml.NElt (EncWbxml.TagTok 0 39 0 (XmlFront.bs "card"))
+       [EncWbxml.mk_at (EncWbxml.AttrTok 0 85 (XmlFront.bs "id") None) (XmlFront.bs "abcd");
+        EncWbxml.mk_at (EncWbxml.AttrTok 0 54 (XmlFront.bs "title") None) (XmlFront.bs "abcd wxyz")]
+       [EncWbxml.NElt (EncWbxml.TagTok 0 32 0 (XmlFront.bs "p")) [] [EncWbxml.NText (XmlFront.bs "abcd wxyz")];
+        EncWbxml.NElt (EncWbxml.TagLit (XmlFront.bs "zz")) [EncWbxml.mk_at (EncWbxml.AttrLit (XmlFront.bs "q")) (XmlFront.bs "abcd")]
+                      [EncWbxml.NText (XmlFront.bs "abcd wxyz")]]].
+
+Example C03_ex_wide_source_ok : src_okW exw_L exw_xo true 0 exw_root.
+Proof. unfold exw_root. solve_src. Qed.
+
+Example C03_ex_wide_idempotence :
+  TreeNorm.norm false [exw_root] = [exw_R2]
+  /\ lang_choice main_table exw_L (EncWbxml.header_public_id exw_e) (wo_lang exw_ou')
+  /\ LangSelect.search_table main_table (option_map XmlFront.str (EncXml.xl_pub (EncXml.xlang_of exw_L)))
+       (Some (XmlFront.str (EncXml.xl_dtd (EncXml.xlang_of exw_L)))) None = Some exw_L
+  /\ EncXmlIndent.node_ok_g (EncXml.xlang_of exw_L) exw_xo EncXml.proot None (to_xnode main_table exw_L (tnodeW true exw_R2)) = true
+  /\ EncWbxml.enc_wbxml EncWbxmlTables.main_btable (EncWbxmlDenote2.to_blang exw_L) exw_o [exw_R2] = EncWbxml.EOk exw_w
+  /\ wbxml2xml_model main_table exw_ou' exw_w = mk_res ST_OK (Some (exw_x ++ [0])) (N.of_nat (length exw_x))
+  /\ match XmlRead.read_xml_auto exw_x with
+     | XmlRead.ROk d =>
+       events_of_info_ns d = XmlFrontInverse.doc_events exw_L (EncXml.xl_root (EncXml.xlang_of exw_L)) (Some (EncXml.xl_dtd (EncXml.xlang_of exw_L)))
+                                                        (EncXml.xl_pub (EncXml.xlang_of exw_L)) exw_R2
+       /\ XmlFront.tree_from_xml main_table ex_sub [60] (events_of_info_ns d) true = inl (XmlFront.mk_xtree 1104 0 [exw_R2])
+       /\ r_out (ConvXml2Wbxml.xml2wbxml_events main_table EncWbxmlTables.main_btable ex_sub (events_of_info_ns d) true exw_o [60]) = Some exw_w
+     | _ => False
+     end.
+Proof.
+  split; [vm_compute; reflexivity|]. split; [right; repeat split; vm_compute; (reflexivity || discriminate)|].
+  repeat (split; [vm_compute; reflexivity|]). vm_compute. repeat split; reflexivity.
+Qed.
+
+Definition exa_L : lang := nth 27 main_table (mk_lang 0 0 None None None None None None None None).
+Definition exa_root : EncWbxml.node :=
+  EncWbxml.NElt (EncWbxml.TagTok 0 5 0 (XmlFront.bs "Sync")) []
+    [EncWbxml.NElt (EncWbxml.TagTok 21 7 0 (XmlFront.bs "SmartReply")) [EncWbxml.mk_at (EncWbxml.AttrLit (XmlFront.bs "q")) (XmlFront.bs "abcd")]
+       [EncWbxml.NText (XmlFront.bs " hello world ")]].
+Definition exa_R2 : EncWbxml.node :=
+  EncWbxml.NElt (EncWbxml.TagTok 0 5 0 (XmlFront.bs "Sync")) []
+    [EncWbxml.NElt (EncWbxml.TagTok 21 7 0 (XmlFront.bs "SmartReply")) [EncWbxml.mk_at (EncWbxml.AttrLit (XmlFront.bs "q")) (XmlFront.bs "abcd")]
+       [EncWbxml.NText (XmlFront.bs "hello world")]].
+Definition exa_o := EncWbxml.mk_opts 3 true false false.
+Definition exa_o' := mk_w2x 2402 0 0 0 false.
+Definition exa_e := EncWbxml.enc_env (EncWbxmlDenote2.to_blang exa_L) exa_o.
+Definition exa_w : bytes :=
+  [3; 0; 2; 106; 35; 113; 0; 45; 47; 47; 77; 73; 67; 82; 79; 83; 79; 70; 84; 47; 47; 68; 84; 68; 32; 65; 99; 116; 105; 118; 101; 83; 121; 110; 99; 47; 47;
+   69; 78; 0; 69; 0; 21; 199; 4; 0; 3; 97; 98; 99; 100; 0; 1; 3; 104; 101; 108; 108; 111; 32; 119; 111; 114; 108; 100; 0; 1; 1].
+Definition exa_x : bytes :=
+  bytes_of_string "<?xml version=""1.0""?><!DOCTYPE ActiveSync PUBLIC ""-//MICROSOFT//DTD ActiveSync//EN"" ""http://www.microsoft.com/""><Sync xmlns=""AirSync:""><SmartReply xmlns=""ComposeMail:"" q=""abcd"">hello world</SmartReply></Sync>".
+
+Example C03_ex_wide_namespaces_source_ok : src_okW exa_L exw_xo true 0 exa_root.
+Proof. unfold exa_root. solve_src. Qed.
+
+Example C03_ex_wide_namespaces_idempotence :
+  find (fun x => l_id x =? 2402) main_table = Some exa_L
+  /\ XmlFront.tree_from_xml main_table ex_sub [60] (XmlFrontEvents.events_of exa_L exa_root) true = inl (XmlFront.mk_xtree 2402 0 [exa_root])
+  /\ EncWbxml.find_lang EncWbxmlTables.main_btable 2402 = Some (EncWbxmlDenote2.to_blang exa_L)
+  /\ EncWbxmlAbs.plain_env exa_e = true /\ EncWbxmlDenote2.vals_ok exa_L = true /\ l_exts exa_L = None
+  /\ EncWbxmlTblOk.tree_ok3 exa_L 0 exa_root = true
+  /\ match EncWbxmlAbs.header_pid exa_e with Some p => EncWbxmlDenote2.okb p = true | None => False end
+  /\ no_data (EncWbxmlDenote3.doc_events3 exa_L exa_e false exa_root) = true
+  /\ EncXmlProofs.lang_ok (EncXml.xlang_of exa_L) = true
+  /\ TreeNorm.norm false [exa_root] = [exa_R2]
+  /\ EncXmlIndent.node_ok_g (EncXml.xlang_of exa_L) exw_xo EncXml.proot None (to_xnode main_table exa_L (tnodeW true exa_R2)) = true
+  /\ r_out (ConvXml2Wbxml.xml2wbxml_events main_table EncWbxmlTables.main_btable ex_sub (XmlFrontEvents.events_of exa_L exa_root) true exa_o [60]) = Some exa_w
+  /\ EncWbxml.enc_wbxml EncWbxmlTables.main_btable (EncWbxmlDenote2.to_blang exa_L) exa_o [exa_R2] = EncWbxml.EOk exa_w
+  /\ wbxml2xml_model main_table exa_o' exa_w = mk_res ST_OK (Some (exa_x ++ [0])) (N.of_nat (length exa_x))
+  /\ match XmlRead.read_xml_auto exa_x with
+     | XmlRead.ROk d =>
+       events_of_info_ns d = XmlFrontInverse.doc_events exa_L (EncXml.xl_root (EncXml.xlang_of exa_L)) (Some (EncXml.xl_dtd (EncXml.xlang_of exa_L)))
+                                                        (EncXml.xl_pub (EncXml.xlang_of exa_L)) exa_R2
+       /\ XmlFront.tree_from_xml main_table ex_sub [60] (events_of_info_ns d) true = inl (XmlFront.mk_xtree 2402 0 [exa_R2])
+       /\ r_out (ConvXml2Wbxml.xml2wbxml_events main_table EncWbxmlTables.main_btable ex_sub (events_of_info_ns d) true exa_o [60]) = Some exa_w
+     | _ => False
+     end.
+Proof. repeat (split; [vm_compute; reflexivity|]). vm_compute. repeat split; reflexivity. Qed.
+
+(* indent generation on the ActiveSync example (namespaces, literal attribute, string table): two trips by computation *)
+Definition exa_oi' := mk_w2x 2402 0 1 2 false.
+Definition exa_trip (o' : w2x_opts) (ev : list XmlFront.event) : option (bytes * bytes) :=
+  match r_out (ConvXml2Wbxml.xml2wbxml_events main_table EncWbxmlTables.main_btable ex_sub ev true exa_o [60]) with
+  | Some w => match r_out (wbxml2xml_model main_table o' w) with Some x0 => Some (w, removelast x0) | None => None end
+  | None => None
+  end.
+Example C03_ex_wide_indent_two_trips :
+  gen_of (wo_gen exa_oi') = EncXml.Indent /\
+  match exa_trip exa_oi' (XmlFrontEvents.events_of exa_L exa_root) with
+  | Some (w1, x1) =>
+    match XmlRead.read_xml_auto x1 with
+    | XmlRead.ROk d =>
+      match exa_trip exa_oi' (events_of_info_ns d) with
+      | Some (w2, x2) => x2 = x1 /\ length x1 = 215%nat /\ x1 <> exa_x
+      | None => False
+      end
+    | _ => False
+    end
+  | None => False
+  end.
+Proof. split; [reflexivity|]. vm_compute. repeat split; (reflexivity || discriminate). Qed.
+
+(* the language NOT forced and found by the TEXTUAL public identifier: the ActiveSync document above (public id written as a string
+   into the string table) *)
+Definition exa_ou' := mk_w2x 0 0 0 0 false.
+Example C03_ex_wide_textual_public_id :
+  lang_choiceW main_table exa_L exa_e (wo_lang exa_ou')
+  /\ wbxml2xml_model main_table exa_ou' exa_w = mk_res ST_OK (Some (exa_x ++ [0])) (N.of_nat (length exa_x)).
+Proof.
+  split; [|vm_compute; reflexivity]. right. split; [reflexivity|]. eexists. split; vm_compute; reflexivity.
 Qed.
